@@ -71,6 +71,9 @@ def build_and_validate_headers(headers: Iterable[Tuple[bytes, bytes]]) -> List[T
         name, value = bytes(name).strip(), bytes(value).strip()
         if name[:1] == b":":
             raise ValueError("Pseudo headers are not valid")
+        for forbidden in (b"\r", b"\n", b"\x00"):
+            if forbidden in name or forbidden in value:
+                raise ValueError("Header names and values cannot contain CR, LF or NUL")
         validated_headers.append((name, value))
     return validated_headers
 
